@@ -45,6 +45,10 @@ GRAPHS: Dict[str, Dict[str, List[str]]] = {
     # two DIFFERENT files that their importers name by the same relative string
     "samestring": {"root.yaml": ["ra/d.yaml", "rb/d.yaml"], "ra/d.yaml": ["c.yaml"], "rb/d.yaml": ["c.yaml"], "ra/c.yaml": [], "rb/c.yaml": []},
 }
+# a long chain of imports (16 files, alternating directories): nothing about a definition changes with the depth it is imported at
+DEEP = "chain16"
+GRAPHS[DEEP] = {("root.yaml" if i == 0 else (f"sub/d{i}.yaml" if i % 2 else f"d{i}.yaml")):
+                ([("../" if i % 2 else "") + (f"sub/d{i + 1}.yaml" if (i + 1) % 2 else f"d{i + 1}.yaml")] if i < 15 else []) for i in range(16)}
 KINDS = ("constant", "string", "alias", "struct", "message", "signal")
 SECTION = {"constant": "constants", "string": "string_constants", "alias": "aliases", "struct": "struct_defs",
            "message": "message_defs", "signal": "message_defs"}
@@ -122,7 +126,19 @@ class Files:
 
 def cases(tier: str) -> List[Dict[str, Any]]:
     out = []
-    graphs = list(GRAPHS)
+    graphs = [g for g in GRAPHS if g != DEEP]
+    dfiles = reachable(GRAPHS[DEEP])
+    dpairs = [(a, b) for a in (dfiles[0], dfiles[9], dfiles[10], dfiles[11], dfiles[12], dfiles[-1]) for b in (dfiles[0], dfiles[5], dfiles[11], dfiles[-1])]
+    for (f1, f2) in dpairs:
+        for (k1, k2) in (itertools.product(KINDS, repeat=2) if tier == "thorough" else (("constant", "message"), ("message", "struct"), ("alias", "alias"))):
+            out.append(dict(cls="name", graph=DEEP, core=False, items=[(k1, "DUP", 2001, f1), (k2, "DUP", 2002, f2)]))
+        out.append(dict(cls="msgid", graph=DEEP, core=False, forms=[("message", f1), ("rto", f2)]))
+        out.append(dict(cls="msgid", graph=DEEP, core=True, forms=[("signal", f1), ("message", f2)]))
+        out.append(dict(cls="modid", graph=DEEP, core=False, files=[f1, f2]))
+        out.append(dict(cls="free", graph=DEEP, core=False, placement=[f1, f2], k=2))
+    for f in dfiles:
+        out.append(dict(cls="free", graph=DEEP, core=False, placement=[f], k=1))
+        out.append(dict(cls="free", graph=DEEP, core=True, placement=[f, dfiles[-1]], k=2))
     for gname in graphs:
         g = GRAPHS[gname]
         files = reachable(g)
